@@ -510,7 +510,7 @@ def print_exact(eng, res, rule="R-PRINT-EXACT"):
         bad = []
         for js in sites:
             for v in js.values:
-                if isinstance(v, ast.FormattedValue) and (v.format_spec is not None or v.conversion not in (-1, 115)):
+                if isinstance(v, ast.FormattedValue) and (v.format_spec is not None or v.conversion not in (-1, 115, 114)):
                     bad.append(f"{{{src(v.value)}:{src(v.format_spec)[2:-1] if v.format_spec is not None else '!' + chr(v.conversion)}}}")
         bad += [src(x)[:40] for x in extra]
         n += 1
